@@ -171,6 +171,23 @@ def run(R, tier, seed, driver_ok):
                     idx = rng.randint(0, len(X), size=(ntup, 4))
                     if not np.array_equal(est.decision_function(idx), est.decision_function(X[idx])):
                         R.violation('quad-indices', f'{label}: decision_function differs between indices and formed quadruplets', {'est': label})
+    # ---- many tuples in one call (a number that is no round figure): score is still the fraction predicted +1 over ALL of them
+    for name in ('SCML', 'LSML'):
+        est, X, y, args = zoo.fitted(name, rng)
+        t = zoo.TUPLE_SIZE[name]
+        for nbig in (int(rng.randint(1100, 1900)), int(rng.randint(2100, 3300))):
+            lo, hi = X.min(0), X.max(0)
+            Tb = lo + (hi - lo) * rng.rand(nbig, t, X.shape[1])
+            Tb = Tb[np.argsort(est.decision_function(Tb))]                 # unevenly spread predictions
+            pred = np.asarray(est.predict(Tb)); sc = float(est.score(Tb))
+            want = float(np.mean(pred == 1)) if name == 'SCML' else float(np.mean(pred) / 2 + 0.5)
+            R.case(('c04-big', name, nbig, Tb.tobytes().hex()[:40]), True, sample={'est': name, 'n_tuples': nbig}, branch='score:large-batch')
+            if abs(sc - want) > 1e-12:
+                R.violation(f'{"triplet" if name == "SCML" else "quad"}-score', f'{name}: score of {nbig} tuples is {sc!r}, the predictions give {want!r}', {'est': name, 'n': nbig})
+            dec = est.decision_function(Tb)
+            for i_ in rng.choice(nbig, 12, replace=False).tolist() + [nbig - 1]:
+                if float(est.decision_function(Tb[i_:i_ + 1])[0]) != float(dec[i_]) and abs(float(est.decision_function(Tb[i_:i_ + 1])[0]) - float(dec[i_])) > 1e-12 * (1 + abs(float(dec[i_]))):
+                    R.violation(f'{"triplet" if name == "SCML" else "quad"}-decision', f'{name}: decision of tuple {i_} depends on the batch it is asked in', {'est': name, 'n': nbig}); break
     if driver_ok and lines:
         outs = lean_run(lines)
         for o, (kind, payload) in zip(outs, meta):
